@@ -57,6 +57,7 @@ type VConn struct {
 	rbuf     []byte
 	closed   bool
 	reset    bool
+	WriteFail bool // writes on this end fail (the peer went away) while reads still block: a half-open connection
 	Peer     *VConn
 	Limit    int // max unread bytes at the peer before Write blocks (0 = unbounded)
 	Written  int64
@@ -88,7 +89,7 @@ func (c *VConn) Read(p []byte) (int, error) {
 }
 
 func (c *VConn) writable() bool {
-	return c.closed || c.reset || c.Peer.closed || c.Limit == 0 || len(c.Peer.rbuf) < c.Limit
+	return c.closed || c.reset || c.WriteFail || c.Peer.closed || c.Limit == 0 || len(c.Peer.rbuf) < c.Limit
 }
 
 func (c *VConn) Write(p []byte) (int, error) {
@@ -96,7 +97,7 @@ func (c *VConn) Write(p []byte) (int, error) {
 	if c.closed {
 		return 0, ErrClosed
 	}
-	if c.reset || c.Peer.closed {
+	if c.reset || c.WriteFail || c.Peer.closed {
 		return 0, ErrPipe
 	}
 	c.Peer.rbuf = append(c.Peer.rbuf, p...)
